@@ -9,6 +9,7 @@
                    `.combine(self.structural_zeros)` applied (warm start or not)
   mask-at-bp       every parameter vector handed to model.belief_propagation inside a solver still carries the
                    mask: it is the setup potentials, a copy, or MASKED +/- anything (scaling and rebuilding lose it)
+  mask-not-scaled  inside a solver no masked vector is multiplied or divided (0*(-inf) = NaN)
   inf-guard        the non-scalar path of Factor.__sub__ selects on infinities of the subtrahend
                    ((-inf) - (-inf) is NaN for every structural zero otherwise)
 Not decided: exact zero versus the 1e-100 floor Factor.log introduces in mle (tolerance), NaN-freedom, synthetic records.
@@ -54,7 +55,31 @@ class Mask(FactAnalysis):
             return self.masked(e.args[0], st)
         return False
 
+    def aliases(self, st, p):
+        out = {p}
+        for f in st.facts:
+            if f[0] == 'SAME' and p in f[1:]:
+                out |= set(f[1:])
+        return out
+
+    def on_assign(self, st, s):
+        st = super().on_assign(st, s)
+        # a = b = <fresh object>: both names denote the same object
+        if isinstance(s, ast.Assign) and len(s.targets) > 1 and all(isinstance(t, ast.Name) for t in s.targets):
+            names = [t.id for t in s.targets]
+            for a in names[1:]:
+                st.facts.add(('SAME', names[0], a))
+        return st
+
     def visit_expr(self, st, e, stmt):
+        if self.setup is not None:
+            for n in ast.walk(e):
+                if isinstance(n, ast.BinOp) and isinstance(n.op, (ast.Mult, ast.Div)):
+                    for side in ((n.left, n.right) if isinstance(n.op, ast.Mult) else (n.left,)):
+                        if self.place(side, st) is not None and self.masked(side, st):
+                            self.ctx.ob('mask-not-scaled', self.fi, n, False,
+                                        'the -inf masked vector `%s` is scaled: 0 * (-inf) is NaN and a negative factor turns the mask into '
+                                        '+inf; masked vectors may only be added to / subtracted from' % U(side))
         for c in calls_in(e):
             f = c.func
             if self.setup is not None and is_setup_call(c, self.setup):
@@ -64,7 +89,8 @@ class Mask(FactAnalysis):
                     self.place(c.args[0], st) == ZEROS:
                 p = self.place(f.value, st)
                 if p is not None:
-                    st.facts.add(('MASKED', p))
+                    for q in self.aliases(st, p):
+                        st.facts.add(('MASKED', q))
             if self.setup is not None and isinstance(f, ast.Attribute) and f.attr == 'belief_propagation' and \
                     self.place(f.value, st) == 'self.model' and c.args:
                 self.bp_sites += 1
@@ -183,6 +209,7 @@ def run(ctx):
         # obligations were recorded once per fixpoint round: de-duplicate keeping the last verdict per call node
         total_bp += an.bp_sites
     dedupe(ctx, 'mask-at-bp')
+    dedupe(ctx, 'mask-not-scaled')
     ctx.floor('belief_propagation call sites in solvers',
               sum(1 for o in ctx.obligations if o.rule == 'mask-at-bp'), 5)
 
